@@ -158,7 +158,7 @@ int main(int argc, char** argv)
     static const char* focus = "F-site (stores, rmw, cas): global activity count, thread_manager wait/stop/suspend/resume, scheduled_thread_pool state machine, scheduler_base suspend/resume, runtime wait/stop/finalize, create_thread/destroy_thread accounting; pthread blocking points of the runtime are always scheduling decisions";
     static const pmc_spec specs[] = {
         {"wait_stop_restart", wait_stop_restart, 2, 3, 0.4, 0.4, 1, focus, sites, "src"},
-        {"stop_before_finalize", stop_before_finalize, 2, 3, 0.3, 0.3, 1, focus, sites, "src"},
+        {"stop_before_finalize", stop_before_finalize, 1, 3, 0.3, 0.3, 1, focus, sites, "src"},
         {"suspend_resume", suspend_resume, 2, 3, 0.3, 0.3, 1, focus, sites, "src"},
     };
     static const char* assumptions[] = {"sequentially consistent interleavings only", "1-2 worker threads; policies local-priority-fifo, static-priority, abp-priority-lifo, local"};
